@@ -99,6 +99,22 @@ def cases(rng, tier):
         yield ("roundtrip", {"nq": 10, "qregs": [10], "instrs": instrs, "labels": [0] * 9 + [1], "pool_idx": rng.sample(range(len(workflow.gen.LABEL_POOL)), 2),
                              "obs": [{"l": "ZZZZZZZZZZ", "p": 0}, {"l": "ZIIIIIIIIZ", "p": 0}, {"l": "IIIIIIIIZZ", "p": 0}, {"l": "ZIZIZIZIZI", "p": 0}], "idle": [],
                              "part": [0] * 9 + [1], "form": "dict", "N": None, "seed": 0, "v2": True})
+    # unseparated form with three cut gates, the instruction right before the third one acting on that gate's second operand (the halves of
+    # the k-th placeholder are spliced at running offsets)
+    for k in range(2):
+        instrs = [{"name": "h", "qubits": [0]}, {"name": "ry", "qubits": [1], "params": [0.7]}, {"name": "cx", "qubits": [0, 1]},
+                  {"name": "rx", "qubits": [2], "params": [0.4]}, {"name": "cz" if k else "cx", "qubits": [1, 2]},
+                  {"name": "ry", "qubits": [3], "params": [1.1]}, {"name": "cx", "qubits": [2, 3]}, {"name": "h", "qubits": [3]}]
+        yield ("roundtrip", {"nq": 4, "qregs": [4], "instrs": instrs, "labels": [0, 1, 2, 3], "pool_idx": rng.sample(range(len(workflow.gen.LABEL_POOL)), 4),
+                             "obs": [{"l": "ZZZZ", "p": 0}, {"l": "XIIZ", "p": 0}, {"l": "IYZX", "p": 0}], "idle": [],
+                             "part": [0, 1, 2, 3], "form": "single" if k == 0 else "dict", "N": None, "seed": 0})
+    # SamplerV2 results in which the pubs of one sample hold different numbers of shots: a partition with two commuting groups, one of which
+    # measures a qubit in an eigenstate (one shot encodes its exact distribution) while the other sees a 50/50 outcome (two shots)
+    yield ("roundtrip", {"nq": 3, "qregs": [3], "instrs": [{"name": "h", "qubits": [0]}, {"name": "x", "qubits": [1]}, {"name": "cx", "qubits": [1, 2]},
+                                                           {"name": "h", "qubits": [2]}],
+                         "labels": [0, 0, 1], "pool_idx": rng.sample(range(len(workflow.gen.LABEL_POOL)), 2),
+                         "obs": [{"l": "XII", "p": 0}, {"l": "ZIZ", "p": 0}, {"l": "ZZX", "p": 0}, {"l": "XZI", "p": 0}], "idle": [],
+                         "part": [0, 0, 1], "form": "dict", "N": None, "seed": 0, "v2": True})
     for gate in (rng.sample(asym, 4) if tier == "quick" else asym):
         p = _descending_case(rng, gate)
         p.update(N=None, seed=0)
